@@ -38,12 +38,12 @@ Definition model_get (local_id req fwd : string) (jl : janswer) (ja : list (stri
 (* ---------- specification ---------- *)
 (* what a relayed manifest must look like: unchanged from the local cluster; from remote r, if the
    manifest is valid, exactly the parsed manifest with every A-hint turned into an R<r>- hint *)
-Definition relayed_ok (r m m' : string) : bool :=
-  if r =? "" then m' =? m
-  else match parse m with
-       | Some ss => m' =? render (map (rw_stream r) ss)
-       | None => true
-       end.
+Definition remote_ok (r m m' : string) : bool :=
+  match parse m with
+  | Some ss => m' =? render (map (rw_stream r) ss)
+  | None => true
+  end.
+Definition relayed_ok (r m m' : string) : bool := if r =? "" then m' =? m else remote_ok r m m'.
 Definition explains (m' : string) (ra : string * janswer) : bool :=
   match snd ra with JCol m true => relayed_ok (fst ra) m m' | _ => false end.
 Definition accepting (a : janswer) : bool := match a with JCol _ true => true | _ => false end.
@@ -66,7 +66,7 @@ Definition spec_get (fwd : string) (jl : janswer) (ja : list (string * janswer))
 
 Definition spec_uuid (local_id uuid : string) (a : answer) (res : result) : bool :=
   match a, res with
-  | ACol m, ROk m' => relayed_ok (if take 5 uuid =? local_id then "" else take 5 uuid) m m'
+  | ACol m, ROk m' => if take 5 uuid =? local_id then m' =? m else remote_ok (take 5 uuid) m m'
   | ACol _, RErr _ => false
   | _, ROk _ => false
   | _, RErr _ => true
@@ -83,7 +83,7 @@ Definition spec_b (c : case) : bool :=
   match c with
   | CGet lid req fwd l arr calls res => spec_get fwd (judge req l) (jarr req arr) res
   | CUuid lid rems uuid by_ a res => spec_uuid lid uuid a res
-  | CRw m r out => relayed_ok r m out || (r =? "")
+  | CRw m r out => remote_ok r m out
   | CPdh m out => true
   end.
 
